@@ -16,7 +16,7 @@ MIRI_SORT = dict(name="sort", argv=["sort", "4100", "2"], seeds=2, timeout=1500)
 
 PROPERTIES = {
     "C06": dict(
-        quick_runs=160_000, thorough_runs=6_000_000, level="exploration",
+        quick_runs=400_000, thorough_runs=6_000_000, level="exploration",
         oracle="Oracle (after every tick, on the UI thread): every match resolves through the safe accessor to a fully "
                "initialised item (canary, ledger, columns == f(value)) of one stream; no index twice; score == "
                "snapshot.pattern().score(item) on a fresh matcher; item_count + #(initialised matching items not "
@@ -28,7 +28,7 @@ PROPERTIES = {
         miri=[MIRI_NUCLEO],
     ),
     "C07": dict(
-        quick_runs=160_000, thorough_runs=6_000_000, level="exploration",
+        quick_runs=400_000, thorough_runs=6_000_000, level="exploration",
         oracle="Oracle (at quiescence checkpoints: writers joined, tick until running == false): item_count == injected "
                "items, snapshot pattern atoms == fresh parse, matches() == (idx, score) sequence of a from-scratch "
                "scoring of every item with a freshly parsed pattern on a fresh matcher sorted by (score desc, length "
@@ -38,7 +38,7 @@ PROPERTIES = {
         probes_expected=["oracle.c07", "run.canceled", "quiesce.vacuous"],
     ),
     "C08": dict(
-        quick_runs=200_000, thorough_runs=8_000_000, level="exploration",
+        quick_runs=500_000, thorough_runs=8_000_000, level="exploration",
         oracle="Oracle (W-boxcar, every atomic operation of the vector is a scheduling point; history of invoke/return "
                "events stamped with the simulator's global event number): at quiescence every successfully pushed value "
                "occurs exactly once, at the index push returned; the published prefix of a batch is contiguous and "
@@ -52,7 +52,7 @@ PROPERTIES = {
         miri=[MIRI_BOXCAR],
     ),
     "C09": dict(
-        quick_runs=120_000, thorough_runs=4_000_000, level="exploration",
+        quick_runs=300_000, thorough_runs=4_000_000, level="exploration",
         oracle="Oracle: vector-clock happens-before monitor over the orderings declared at each atomic call site "
                "(fork/join, job hand-over, lock hand-over, release/acquire, release sequences, fences); every plain "
                "access reported by the hooks (bucket initialisation, entry write in push/extend before and after, "
@@ -62,7 +62,7 @@ PROPERTIES = {
         miri=[MIRI_BOXCAR, MIRI_NUCLEO, MIRI_SORT],
     ),
     "C11": dict(
-        quick_runs=120_000, thorough_runs=4_000_000, level="fault_enumeration",
+        quick_runs=300_000, thorough_runs=4_000_000, level="fault_enumeration",
         oracle="Oracle: drop ledger per item (exactly one drop by the end of the execution, after every simulated "
                "thread has finished; no drop of a stored item while an injector of its stream is alive, its stream "
                "is current or the last checked snapshot shows it; every read validates canary + ledger: no use "
@@ -73,7 +73,7 @@ PROPERTIES = {
         probes_expected=["ledger.items_created", "alloc.tracked_column_strings"],
     ),
     "C12": dict(
-        quick_runs=160_000, thorough_runs=6_000_000, level="exploration",
+        quick_runs=400_000, thorough_runs=6_000_000, level="exploration",
         oracle="Oracle: items carry their stream number. restart(true): snapshot empty immediately. restart(false): "
                "snapshot (matches, item_count, pattern) identical to the pre-restart copy while it still shows old "
                "items; one stream per snapshot; once a snapshot of the current stream was seen no older stream ever "
@@ -83,7 +83,7 @@ PROPERTIES = {
         probes_expected=["tick.stale_run_discarded", "run.canceled"],
     ),
     "C13": dict(
-        quick_runs=160_000, thorough_runs=6_000_000, level="exploration",
+        quick_runs=400_000, thorough_runs=6_000_000, level="exploration",
         oracle="Oracle (event-loop world: the UI ticks only after its own edit/restart or when notified): whenever "
                "the last tick reported running == true the UI waits for the notify callback under a 60-simulated-"
                "second watchdog that, being a long timer, can only fire once no other thread is runnable; expiry = "
@@ -94,7 +94,7 @@ PROPERTIES = {
         miri=[MIRI_EVENTLOOP],
     ),
     "C18": dict(
-        quick_runs=60_000, thorough_runs=2_000_000, level="exploration",
+        quick_runs=200_000, thorough_runs=2_000_000, level="exploration",
         oracle="Oracle (W-sort: par_quicksort through the cfg-gated facade on a simulated pool of N threads, optional "
                "canceller thread whose single store is placed by the scheduler): the slice is a permutation of its input "
                "(unique uids: exact multiset equality); returned false => no adjacent inversion under is_less; flag never "
@@ -109,7 +109,7 @@ PROPERTIES = {
         miri=[MIRI_SORT],
     ),
     "C19": dict(
-        quick_runs=160_000, thorough_runs=6_000_000, level="exploration",
+        quick_runs=400_000, thorough_runs=6_000_000, level="exploration",
         oracle="Oracle (around every tick): changed == false => (matches, item_count, pattern atoms) equal the copy "
                "taken before the call; running == false => item_count >= number of current-stream pushes that had "
                "returned before the call began, and snapshot pattern atoms == Nucleo::pattern atoms.",
@@ -117,7 +117,7 @@ PROPERTIES = {
         probes_expected=["ui.tick.running", "ui.tick.changed"],
     ),
     "C20": dict(
-        quick_runs=160_000, thorough_runs=6_000_000, level="exploration",
+        quick_runs=400_000, thorough_runs=6_000_000, level="exploration",
         oracle="Oracle: after every UI operation and tick, active_injectors() == number of live Injector values "
                "(held by the UI or by writer threads, clones included) of the current stream; the model is updated "
                "in the same scheduling-point-free section as the Arc operation.",
